@@ -20,21 +20,22 @@ REGISTRY = {}   # prop -> [Harness]
 
 class Harness:
     def __init__(self, prop, name, fn, tiers, functions, cover, universe, replay_real, validate, timeout_ms, notes,
-                 max_paths, bounds, stubs, outside):
+                 max_paths, bounds, stubs, outside, custom=None):
         self.prop, self.name, self.fn = prop, name, fn
         self.tiers, self.functions, self.cover = tiers, functions, cover
         self.universe, self.replay_real, self.validate = universe, replay_real, validate
         self.timeout_ms, self.notes, self.max_paths = timeout_ms, notes, max_paths
         self.bounds, self.stubs, self.outside = bounds, stubs, outside
+        self.custom = custom
 
 
 def harness(prop, name=None, tiers=None, functions=(), cover=(), universe=None, replay_real=None, validate=None,
-            timeout_ms=None, notes='', max_paths=20000, bounds=None, stubs=(), outside=()):
+            timeout_ms=None, notes='', max_paths=20000, bounds=None, stubs=(), outside=(), custom=None):
     """tiers: {'quick': [param dicts], 'thorough': [param dicts]}"""
     def deco(fn):
         h = Harness(prop, name or fn.__name__, fn, tiers or {'quick': [{}], 'thorough': [{}]}, list(functions),
                     list(cover), universe, replay_real, validate, timeout_ms, notes, max_paths, bounds or {},
-                    list(stubs), list(outside))
+                    list(stubs), list(outside), custom)
         REGISTRY.setdefault(prop, []).append(h)
         fn.harness = h
         return fn
@@ -59,6 +60,17 @@ def run_job(prop, hname, params, tier, seed):
     """runs in a worker process; returns a JSON-able dict"""
     t0 = time.time()
     h = find(prop, hname)
+    if h.custom is not None:
+        base = {'harness': hname, 'params': params, 'error': None, 'violations': [], 'paths': 0, 'aborted': 0,
+                'forks': 0, 'q_unsat': 0, 'q_sat': 0, 'q_unknown': 0, 'solver_s': 0.0, 'proved': {}, 'covers': {},
+                'unknowns': [], 'n_unknown': 0, 'div_sites': 0, 'assumes': [], 'samples': [], 'files': [],
+                'assumed_feasible': 0}
+        try:
+            base.update(h.custom(h, params, tier, seed))
+        except BaseException as e:  # noqa
+            base['error'] = '%s: %s\n%s' % (type(e).__name__, e, traceback.format_exc()[-2000:])
+        base['wall_s'] = round(time.time() - t0, 2)
+        return base
     res = {'harness': hname, 'params': params, 'error': None, 'violations': [], 'spurious': 0}
     tmo = h.timeout_ms or (20000 if tier == 'quick' else 120000)
     ex = Explorer(timeout_ms=tmo, max_paths=h.max_paths, seed=seed)
@@ -129,6 +141,10 @@ def replay_file(path):
     with open(path) as f:
         rp = json.load(f)
     h = find(rp['property'], rp['harness'])
+    if h.custom is not None:
+        import importlib
+        mod = importlib.import_module(h.fn.__module__)
+        return mod.replay(rp)
     uni = _mk_universe(h)
     fc = FloatCtx(rp['model'])
     try:
